@@ -9,8 +9,9 @@
                   (`Gen.GkfDoc.refineXY`, `refineZ`; the translator also checks that `b` is a reference into PD and that
                   `x` is `solve()`); the status of the point is not consulted: constrained points move like free ones.
   * `refineLoop`  `LocalNetwork::refine_adjustment`: `while (iterations < max) { refine = refine_obsdh_reductions();
-                  if (!refine) refine = TestLinearization(); if (!refine) break; ++iterations;
-                  refine_approx_coordinates(); }` (shape REGENERATED: `refineLoopShape`).  `step s = none` ⇔ neither test
+                  if (!refine) refine = TestLinearization(); if (!refine) refine = refine_obsdh_reductions(adjusted);
+                  if (!refine) break; ++iterations;
+                  refine_approx_coordinates(); }` (shape REGENERATED: `refineLoopShape`).  `step s = none` ⇔ none of the three tests
                   asks for a refinement (then nothing was changed), `some s'` = the state after the pass.
   * `adjusted`    the adjusted coordinates gama-local reports (`x + x(i)/1000` in AdjustedUnknowns / LocalNetworkXML).
 
